@@ -29,7 +29,7 @@ ASSUMPTIONS = [
     "cases whose input satisfies an open known-finding predicate are not "
     "executed",
 ]
-EXHAUSTIVE = ()
+EXHAUSTIVE = ()   # the loop-shape family is enumerated completely, see counters
 PLACEHOLDERS = ("|||START|||", "|||END|||", "|||DUMMY|||", "DUMMY_BREAK",
                 "START_LOOP", "END_LOOP", "BREAK_LOOP")
 
@@ -110,6 +110,15 @@ def run_shard(ctx):
             run_case(case, ctx)
         except Violation as v:
             ctx.violation(case, str(v))
+            return
+    # exhaustive loop/break family (832 definitions, complete sets, k=2)
+    for tag, case in pvcase.loop_shape_cases(ctx.seed, ctx.shard,
+                                             ctx.nshards):
+        ctx.count("loop_shapes_enumerated")
+        try:
+            run_case(case, ctx)
+        except Violation as v:
+            ctx.violation(case, f"[loop shape {tag}] " + str(v))
             return
     n = 150 if ctx.tier == "quick" else 4000
     strat = st.one_of(
